@@ -98,6 +98,14 @@ func (w *vocWorld) open() (string, string) {
 	}
 	w.conns = append(w.conns, vc)
 	w.slots[vc.idx] = true
+	// C10, last sentence: the slot must not get a new owner while the poller still holds a fetched, undispatched event through it
+	if w.inBatch {
+		for _, ev := range w.batch[w.bpos:] {
+			if *(**FDOperator)(unsafe.Pointer(&ev.data)) == vc.op {
+				return fmt.Sprintf("open %d slot=%d", vc.id, vc.idx), fmt.Sprintf("BYSTANDER-FAIL slot %d handed to connection %d while the poller holds a fetched, undispatched event through it", vc.idx, vc.id)
+			}
+		}
+	}
 	return fmt.Sprintf("open %d slot=%d", vc.id, vc.idx), "ok " + w.obs()
 }
 
@@ -118,11 +126,22 @@ func (w *vocWorld) exec(toks []string) (op string, reply string) {
 		return w.open()
 	case "drain":
 		// use up the cache's free chain, so the next alloc has to get its operator some other way
-		// (a fresh block; never a slot that still waits in the freelist for the end of the batch)
+		// (a fresh block; never a slot that still waits in the freelist for the end of the batch).
+		// Slots the model knows are taken like a new connection would take them (callbacks installed, never registered).
+		var known []string
 		for w.p.opcache.first != nil {
-			w.held = append(w.held, w.p.Alloc())
+			o := w.p.Alloc()
+			w.held = append(w.held, o)
+			if w.slots[o.index] {
+				o.Inputs = func(vs [][]byte) [][]byte { return vs }
+				known = append(known, fmt.Sprint(o.index))
+			}
 		}
-		return op, "ok " + w.obs()
+		l := strings.Join(known, ",")
+		if l == "" {
+			l = "-"
+		}
+		return "drain " + l, "ok " + w.obs()
 	case "send":
 		vc := w.conns[atoi(toks[1])]
 		syscall.Write(vc.peer, []byte("abc"))
@@ -251,6 +270,7 @@ func VerifOpCacheMain(args []string) int {
 	opsOut := fs.String("ops-out", "", "")
 	implOut := fs.String("impl-out", "", "")
 	replay := fs.String("replay", "", "")
+	hazard := fs.Bool("hazard", false, "start every sequence with a directed prelude around the slot-reuse window (search for a failing input)")
 	if err := fs.Parse(args); err != nil {
 		return 2
 	}
@@ -367,15 +387,44 @@ func VerifOpCacheMain(args []string) int {
 		}
 		fmt.Fprintf(ow, "seq %d\n", s)
 		fmt.Fprintln(iw, "seq")
-		if r.Intn(3) == 0 {
-			// only before any connection exists: every operator taken is one no modelled slot refers to
+		if *hazard {
+			// directed prelude: k connections, allocation list used up, data for some of them fetched but not dispatched,
+			// one or two of those closed (or told to hang up), new connections opened inside the batch, then the batch is dispatched
+			k := 2 + r.Intn(3)
+			for i := 0; i < k; i++ {
+				emit(w, "open")
+			}
+			if r.Intn(4) != 0 {
+				emit(w, "drain")
+			}
+			for i := 0; i < k; i++ {
+				if r.Intn(3) != 0 {
+					emit(w, fmt.Sprintf("send %d", i))
+				}
+			}
+			emit(w, "fetch")
+			for j := 1 + r.Intn(2); j > 0; j-- {
+				emit(w, fmt.Sprintf("close %d", r.Intn(k)))
+			}
+			if r.Intn(3) == 0 {
+				emit(w, "drain")
+			}
+			for j := 1 + r.Intn(2); j > 0; j-- {
+				emit(w, "open")
+			}
+		} else if r.Intn(3) == 0 {
 			emit(w, "drain")
 		}
 		for i := 0; i < *nops; i++ {
 			var line string
 			nc := len(w.conns)
 			pick := func() int { return r.Intn(nc) }
-			switch k := r.Intn(20); {
+			switch k := r.Intn(21); {
+			case k == 20:
+				if r.Intn(2) == 0 {
+					continue
+				}
+				line = "drain"
 			case k < 3 || nc == 0:
 				if nc >= 6 {
 					continue
